@@ -68,6 +68,21 @@ def refPPX {κ : Type} (ks : KeySys κ) (io : FloatIO) (m : GMap κ) (L : Nat) (
             .text ("Object[{".toList ++ s ++ (if t.f.alt then newLine L else []) ++ "}]".toList)
       typeFinish t.f [] body
   | .obj name es =>
+    if name.isEmpty then
+      -- an instance of an anonymous type: the line break of the context, then the init hash as a Hash (which breaks the line again)
+      let t := getG ks m (.hash es)
+      let lead : Str := if inh && decide (L > 0) && nested then newLine L else []
+      if t.f.letter = 'a' then
+        let ta := getG ks m (.array (es.map XEntry.arr))
+        if !isArrayLetter ta.f.letter then .reported .unsupported
+        else match refPPXEntryArrs ks io (cfOfG ks ta) (L + 1) ta.f.alt es with
+          | .ok parts => .text (lead ++ ppArray ta.f L inh nested parts)
+          | .err e => e
+      else if !isHashLetter t.f.letter then .reported .unsupported
+      else match refPPXPairs ks io m (cfOfG ks t) (L + 1) t.f.alt es with
+        | .ok parts => .text (lead ++ ppHash t.f L inh nested parts)
+        | .err e => e
+    else
     let t := getG ks m (.obj name es)
     if t.f.letter = 'a' then
       -- the init hash as the array of its entries: the name, then an Array that brings its own line break
@@ -239,35 +254,66 @@ theorem fmtX_pp {κ : Type} (ks : KeySys κ) (io : FloatIO) : ∀ (v : XVal) (m 
     rfl
   | .obj name es, m, L, inh, nested => by
     have h1 := fmtPairsX_pp ks io es m (cfOfG ks (getG ks m (.obj name es))) (L + 1) (getG ks m (.obj name es)).f.alt
+    have h1h := fmtPairsX_pp ks io es m (cfOfG ks (getG ks m (.hash es))) (L + 1) (getG ks m (.hash es)).f.alt
     have h2 := fmtEntryArrsX_pp ks io es (cfOfG ks (getG ks m (.array (es.map XEntry.arr)))) (L + 1)
       (getG ks m (.array (es.map XEntry.arr))).f.alt
+    have hokA : ErrOK (refPPXEntryArrs ks io (cfOfG ks (getG ks m (.array (es.map XEntry.arr)))) (L + 1)
+        (getG ks m (.array (es.map XEntry.arr))).f.alt es) := by rw [← h2]; exact fmtEntryArrsX_errOK ks io _ _ es
     simp only [fmtX, refPPX]
     split
+    · -- anonymous
+      rename_i hemp
+      have hnm : name = [] := by cases name <;> simp at hemp ⊢
+      subst hnm
+      split
+      · split
+        · simp [Res.bind]
+        · rw [arrayChildInd_eq, h2]
+          cases hr : refPPXEntryArrs ks io (cfOfG ks (getG ks m (.array (es.map XEntry.arr)))) (L + 1)
+              (getG ks m (.array (es.map XEntry.arr))).f.alt es with
+          | ok parts => simp only [arrayOf, Res.bind, arrayAssemble_pp, Ind.breaks, Ind.padding, newLine, Bool.not_not, List.append_nil, List.nil_append]
+          | err e =>
+            cases e with
+            | text s => exact absurd rfl (hokA _ hr s)
+            | reported c => simp [arrayOf, Res.bind]
+            | fault k => simp [arrayOf, Res.bind]
+      · split
+        · simp [Res.bind]
+        · rw [hashChildInd_eq, h1h]
+          have hok : ErrOK (refPPXPairs ks io m (cfOfG ks (getG ks m (.hash es))) (L + 1) (getG ks m (.hash es)).f.alt es) := by
+            rw [← h1h]; exact fmtPairsX_errOK ks io m _ _ es
+          cases hr : refPPXPairs ks io m (cfOfG ks (getG ks m (.hash es))) (L + 1) (getG ks m (.hash es)).f.alt es with
+          | ok parts =>
+            simp only [hashOf, Res.bind, hashAssembleD_false, hashAssemble_pp, Ind.breaks, Ind.padding, newLine, Bool.not_not, List.append_nil, List.nil_append]
+          | err e =>
+            cases e with
+            | text s => exact absurd rfl (hok _ hr s)
+            | reported c => simp [hashOf, Res.bind]
+            | fault k => simp [hashOf, Res.bind]
     · split
-      · simp [Res.bind]
-      · rw [arrayChildInd_eq, h2]
-        have hok : ErrOK (refPPXEntryArrs ks io (cfOfG ks (getG ks m (.array (es.map XEntry.arr)))) (L + 1)
-            (getG ks m (.array (es.map XEntry.arr))).f.alt es) := by rw [← h2]; exact fmtEntryArrsX_errOK ks io _ _ es
-        cases hr : refPPXEntryArrs ks io (cfOfG ks (getG ks m (.array (es.map XEntry.arr)))) (L + 1)
-            (getG ks m (.array (es.map XEntry.arr))).f.alt es with
-        | ok parts => simp only [arrayOf, Res.bind, arrayAssemble_pp, Ind.breaks, Ind.padding, newLine, Bool.not_not]
-        | err e =>
-          cases e with
-          | text s => exact absurd rfl (hok _ hr s)
-          | reported c => simp [arrayOf, Res.bind]
-          | fault k => simp [arrayOf, Res.bind]
-    · split
-      · simp [Res.bind]
-      · rw [hashChildInd_eq, h1]
-        have hok : ErrOK (refPPXPairs ks io m (cfOfG ks (getG ks m (.obj name es))) (L + 1) (getG ks m (.obj name es)).f.alt es) := by
-          rw [← h1]; exact fmtPairsX_errOK ks io m _ _ es
-        cases hr : refPPXPairs ks io m (cfOfG ks (getG ks m (.obj name es))) (L + 1) (getG ks m (.obj name es)).f.alt es with
-        | ok parts => simp only [hashOf, Res.bind, hashAssembleD_paren_pp, ppObj, Ind.breaks, Ind.padding, newLine, Bool.not_not]
-        | err e =>
-          cases e with
-          | text s => exact absurd rfl (hok _ hr s)
-          | reported c => simp [hashOf, Res.bind]
-          | fault k => simp [hashOf, Res.bind]
+      · split
+        · simp [Res.bind]
+        · rw [arrayChildInd_eq, h2]
+          cases hr : refPPXEntryArrs ks io (cfOfG ks (getG ks m (.array (es.map XEntry.arr)))) (L + 1)
+              (getG ks m (.array (es.map XEntry.arr))).f.alt es with
+          | ok parts => simp only [arrayOf, Res.bind, arrayAssemble_pp, Ind.breaks, Ind.padding, newLine, Bool.not_not]
+          | err e =>
+            cases e with
+            | text s => exact absurd rfl (hokA _ hr s)
+            | reported c => simp [arrayOf, Res.bind]
+            | fault k => simp [arrayOf, Res.bind]
+      · split
+        · simp [Res.bind]
+        · rw [hashChildInd_eq, h1]
+          have hok : ErrOK (refPPXPairs ks io m (cfOfG ks (getG ks m (.obj name es))) (L + 1) (getG ks m (.obj name es)).f.alt es) := by
+            rw [← h1]; exact fmtPairsX_errOK ks io m _ _ es
+          cases hr : refPPXPairs ks io m (cfOfG ks (getG ks m (.obj name es))) (L + 1) (getG ks m (.obj name es)).f.alt es with
+          | ok parts => simp only [hashOf, Res.bind, hashAssembleD_paren_pp, ppObj, Ind.breaks, Ind.padding, newLine, Bool.not_not]
+          | err e =>
+            cases e with
+            | text s => exact absurd rfl (hok _ hr s)
+            | reported c => simp [hashOf, Res.bind]
+            | fault k => simp [hashOf, Res.bind]
   | .array vs, m, L, inh, nested => by
     have ih := fmtElemsX_pp ks io vs m (cfOfG ks (getG ks m (.array vs))) (L + 1) (getG ks m (.array vs)).f.alt
     simp only [fmtX, refPPX, arrayChildInd_eq, arrayOf_pp, ih]
